@@ -794,6 +794,57 @@ func runC12(c *core.Ctx) core.Meta {
 		}
 	}
 
+	// ---------------- R12.11 what a launch reads was written earlier on its own queue ----------------
+	st11 := c.Rule("R12.11", "commands of one queue take effect in order, queues are not ordered against each other: every device address that EnqueueLaunchKernel puts into the dispatch packet or the launch command (code object, kernel arguments, packet) is the destination of an EnqueueMemCopyH2D on the same queue on every path to the launch command (must-pass on the flow graph); a launch that relies on a copy enqueued on another queue can start before that copy has completed", 3)
+	if fn := c.MustFunc("R12.11", driverPkg, "Driver.EnqueueLaunchKernel"); fn != nil {
+		c.MarkAnalysed(fn)
+		g := core.BuildGraph(fn, 0, nil)
+		var launch *core.Node
+		var ptrs []ssa.Value
+		var names []string
+		for _, n := range g.Nodes {
+			cc := core.CallOf(n.Instr)
+			if cc == nil || cc.StaticCallee() == nil {
+				continue
+			}
+			switch cc.StaticCallee().Name() {
+			case "createAQLPacket":
+				if len(cc.Args) == 5 { // receiver, grid, wg, code object, kernel arguments
+					ptrs = append(ptrs, cc.Args[3], cc.Args[4])
+					names = append(names, "code object", "kernel arguments")
+				}
+			case "enqueueLaunchKernelCommand":
+				launch = n
+				if len(cc.Args) == 5 { // receiver, queue, co, packet, device packet
+					ptrs = append(ptrs, cc.Args[4])
+					names = append(names, "dispatch packet")
+				}
+			}
+		}
+		if launch == nil || len(ptrs) != 3 {
+			c.Report(core.Finding{Rule: "R12.11", Kind: "anchor", Pkg: driverPkg, Func: "Driver.EnqueueLaunchKernel", Detail: "shape", Msg: fmt.Sprintf("launch command / packet construction not recognised (%d addresses)", len(ptrs))})
+		} else {
+			queueArg := core.CallOf(launch.Instr).Args[1]
+			for i, p := range ptrs {
+				st11.Instances++
+				isCopy := func(n *core.Node) bool {
+					cc := core.CallOf(n.Instr)
+					if cc == nil || cc.StaticCallee() == nil || cc.StaticCallee().Name() != "EnqueueMemCopyH2D" || len(cc.Args) < 4 {
+						return false
+					}
+					return cc.Args[1] == queueArg && core.StripConv(cc.Args[2]) == core.StripConv(p)
+				}
+				reach, okW := g.Reach([]core.State{{N: g.Entry}}, core.WalkOpts{Stop: isCopy})
+				okP := okW && !reach[launch]
+				st11.Ob(okP)
+				st11.Sample("%s: copied on the launching queue on every path: %v", names[i], okP)
+				if !okP {
+					c.ReportAt("R12.11", fn, launch.Instr.Pos(), "launch-reads-uncopied:"+strings.ReplaceAll(names[i], " ", "-"), "the launch command can be enqueued on a path on which the "+names[i]+" was not copied to the device by a command of the same queue (the address comes from the code-object cache, filled by a copy on whichever queue launched the kernel first): commands of different queues are not ordered, so the kernel can start before its code is in device memory")
+				}
+			}
+		}
+	}
+
 	// ---------------- R12.10 thread-shared fields, discovered (c12shared.go) ----------------
 	checkSharedFields(c, pd)
 
